@@ -24,6 +24,7 @@ import (
 	"fmt"
 	"math/rand"
 	"os"
+	"runtime"
 	"sort"
 	"strconv"
 	"strings"
@@ -316,7 +317,12 @@ func runEdges(e *env, in string) {
 	var edges []edge
 	tl.ReadJSON(in, &edges)
 	distinct := map[string]bool{}
+	procs := []int{1, 2, 4, 16}
 	for i, ed := range edges {
+		if i%64 == 0 {
+			// real schedules of the concurrent batch workers: vary the parallelism
+			runtime.GOMAXPROCS(procs[e.r.Intn(len(procs))])
+		}
 		variant := e.r.Intn(nVariants)
 		tr, err := e.build(ed.From, variant)
 		if err != nil {
@@ -362,7 +368,9 @@ func runSim(e *env, in string) {
 	var behaviours [][]step
 	tl.ReadJSON(in, &behaviours)
 	shapes := map[string]bool{}
+	procs := []int{1, 2, 4, 16}
 	for bi, b := range behaviours {
+		runtime.GOMAXPROCS(procs[e.r.Intn(len(procs))])
 		store := tk.NewPathStore()
 		tr := trie.NewEmpty(store)
 		shape := ""
